@@ -181,11 +181,20 @@ class Reader:
     def validate(self, m):
         body = [c for c in inner(m) if c.get("kind") == "CompoundStmt"][0]
         st = inner(body)
-        if len(st) != 1 or st[0].get("kind") != "IfStmt" or st[0].get("hasElse"):
-            raise Unreadable("validate: outer statement")
-        cond, then = inner(st[0])
-        guard = self.expr(cond)
-        ts = inner(then)
+        if len(st) == 3 and st[0].get("kind") == "IfStmt" and not st[0].get("hasElse"):
+            # the early-return spelling:  if (G') return;  v = arg_.find_first_not_of(c);  if (cond) raise;   — guard = !G'
+            c0, t0 = inner(st[0])
+            t0s = inner(t0) if t0.get("kind") == "CompoundStmt" else [t0]
+            if len(t0s) != 1 or t0s[0].get("kind") != "ReturnStmt" or inner(t0s[0]):
+                raise Unreadable("validate: outer statement")
+            guard = "(PNot %s)" % self.expr(c0)
+            ts = st[1:]
+        else:
+            if len(st) != 1 or st[0].get("kind") != "IfStmt" or st[0].get("hasElse"):
+                raise Unreadable("validate: outer statement")
+            cond, then = inner(st[0])
+            guard = self.expr(cond)
+            ts = inner(then)
         if len(ts) != 2 or ts[0].get("kind") != "DeclStmt" or ts[1].get("kind") != "IfStmt" or ts[1].get("hasElse"):
             raise Unreadable("validate: inner statements")
         var = inner(ts[0])[0]
